@@ -44,6 +44,19 @@ def make_reference(rng, k, tier):
         d = contigs[j]
         at = rng.randint(0, len(d) - len(piece))
         contigs[j] = d[:at] + piece + d[at + len(piece):]
+    # a long repeat (several consecutive repeated k-mers) whose second copy is interrupted by an N: the windows on
+    # both sides of the N are repeats, the windows across it do not exist
+    if rng.random() < 0.3:
+        piece = gen.rand_seq(rng, rng.randint(2 * k + 2, 3 * k + 2))
+        cut = rng.randint(k, len(piece) - k - 1)
+        broken = piece[:cut] + "N" + piece[cut + 1:]
+        if rng.random() < 0.5:
+            broken = revcomp(broken)
+        pair = [piece, broken]
+        rng.shuffle(pair)
+        i, j = rng.randrange(len(contigs)), rng.randrange(len(contigs))
+        contigs[i] = contigs[i] + pair[0] + gen.rand_seq(rng, rng.randint(0, 5))
+        contigs[j] = gen.rand_seq(rng, rng.randint(0, 5)) + pair[1] + contigs[j]
     out = []
     for c in contigs:
         if len(c) > k and rng.random() < 0.3:
